@@ -26,6 +26,7 @@ import decimal
 import enum
 import fractions
 import inspect
+import json
 import pathlib
 import re
 import sys
@@ -421,8 +422,13 @@ def shrink_candidates(x):
         for k, e in x.items():
             for c in shrink_candidates(e):
                 yield {a: (c if a == k else b) for a, b in x.items()}
-    elif t is str and len(x) > 1 and x[:1] in "[{(":
-        return
+    elif t is str and len(x) > 1 and x[:1] in "[{":
+        try:
+            parsed = json.loads(x)
+        except Exception:
+            return
+        for c in shrink_candidates(parsed):
+            yield json.dumps(c)
     elif t is int and x not in (0, 1):
         yield 1
     elif t is str and len(x) > 1:
